@@ -225,8 +225,8 @@ RUN_LENGTHS = [0, 1, 2, 3, 4]
 def run_length_values(thorough=False):
     """String columns in which ONE character is repeated a varying number
     of times: prefix + c * n + suffix for n over EVERY subset (>= 2
-    members) of the run lengths 0..4 (thorough 0..5), c over digits / letters / punctuation /
-    space, with nothing, a same-class character sorting above or below c, a
+    members) of the run lengths 0..4 (thorough 0..5), c over digits /
+    letters / punctuation / space, with nothing, a same-class character sorting above or below c, a
     character of the other alphanumeric class or punctuation behind the run
     (tdda hands rexpy the SORTED distinct values, so what follows the run
     decides whether the shortest or the longest run arrives first), with
